@@ -305,8 +305,13 @@ def run_changed_resume_case(case, workdir):
         return out
     scn2 = copy.deepcopy(scn)
     sk2 = {"sampler_kwargs": {"n_steps": 1}, "adaptive": False, "n_steps": int(pick(rng, [5, 7, 10, 16, 40]))}
-    if rng.integers(3) == 0:
+    v2 = int(rng.integers(3))
+    if v2 == 0:
         sk2 = {"sampler_kwargs": {"n_steps": 1}, "adaptive": True, "target_efficiency": 0.6}
+    elif v2 == 1:
+        # the continuation asks for its own minimum step (a demanding ESS target keeps the feasible steps below it)
+        sk2 = {"sampler_kwargs": {"n_steps": 1}, "adaptive": True, "target_efficiency": float(pick(rng, [0.9, 0.97])),
+               "min_step": float(pick(rng, [0.2, 0.25, 0.34]))}
     scn2["sample_kwargs"] = sk2
     r2 = run_process(scn2, workdir, resume=("bytes", payload), proc_no=1, stop_after=2 + 300 * 3)
     out["evaluations"] += 1
@@ -330,6 +335,17 @@ def run_changed_resume_case(case, workdir):
             prev = b
         if r2.status == "ok" and beta and beta[-1] != 1.0:
             V.append(O.violation("c06.end_not_one", f"continuation with a changed schedule finished at beta={beta[-1]!r}", where))
+        if sk2.get("min_step") is not None and sk2.get("max_n_steps") is None:
+            # an explicit minimum step is honoured by every step the continuation itself takes (all but the clamped last)
+            n0 = int(st.get("iteration") or 0)
+            bprev = b0
+            for i, b in enumerate(beta[n0:]):
+                if b - bprev < float(sk2["min_step"]) * (1 - 1e-12) and b != 1.0:
+                    V.append(O.violation("c06.min_step", f"continuation at beta={b0!r} with min_step={sk2['min_step']}: its step {i} advanced beta by "
+                                         f"{b - bprev!r} (sequence {beta[n0:n0 + 6]})", {**where, "continuation": True}, index=i, step=b - bprev))
+                    break
+                bprev = b
+            out["probes"]["continuation_with_explicit_min_step"] = 1
         if r2.status == "stopped":
             V.append(O.violation("c06.no_progress", f"continuation with a changed schedule did not terminate within 300 iterations (beta={beta[-1] if beta else None!r})", where))
         out["nontrivial_keys"] = [["changed_resume", first, sk2.get("adaptive"), sk2.get("n_steps")]]
